@@ -85,6 +85,7 @@ type PkgContracts struct {
 	ByName  map[string]*FuncContract
 	Imports map[string]string // name -> path (union over package files)
 	BindErrors []string
+	ExtraSpec string // generated ghost code appended to the spec helpers
 }
 
 var kwRe = regexp.MustCompile(`^(func|lemma|let|option|ghostlog|requires|ensures|defines|canary|modifies|loop|inline|trusted|assumes|returns)\b`)
@@ -588,6 +589,9 @@ func genOverlay(pc *PkgContracts, files []*ast.File, specDir string) (string, er
 		body.WriteString("// ---- spec helpers from " + specFile + "\n")
 		body.WriteString(strings.Join(keep, "\n"))
 		body.WriteString("\n")
+	}
+	if pc.ExtraSpec != "" {
+		body.WriteString("// ---- generated ghost clients\n" + pc.ExtraSpec + "\n")
 	}
 	body.WriteString("\n// ---- clause functions\n")
 	for _, fc := range pc.Funcs {
